@@ -23,6 +23,8 @@ import tempfile
 
 import numpy as np
 
+from .. import gen
+
 from .. import fileformats as FF
 from .. import probe
 
@@ -977,6 +979,7 @@ def kwargs_type_rule_explains(kwargs_form, degrees_form, dg_arg, events, err):
 def fam_read(ctx, rng):
     import hvsrpy
     k = int(rng.integers(1, 5))
+    k, many = gen.maybe_large(rng, ctx, k, [9, 12, 20, 40], p_quick=0.04, p_thorough=0.04)   # a whole campaign in one call
     kwargs_form = str(rng.choice(["none", "dict", "list"]))
     degrees_form = str(rng.choice(["none", "scalar", "list"]))
     CUR["fmt"] = "read()"
@@ -989,7 +992,7 @@ def fam_read(ctx, rng):
             pool = [f for f in ROUTE_FORMATS if f in one or f in ("saf", "minishark", "peer")]
         for i in range(k):
             which = pool[int(rng.integers(0, len(pool)))]
-            fs_ = build_any(ctx, rng, d, which, int(rng.integers(10, 300)), tag=f"r{i}")
+            fs_ = build_any(ctx, rng, d, which, 20000 if (many and i == 0) else int(rng.integers(10, 300)), tag=f"r{i}")
             if fs_ is None:
                 return
             if isinstance(fs_["fnames"], list):
